@@ -90,7 +90,14 @@ class NewtonRaphsonGeometry(StandardGeometry, ABC):
             if np.max(np.abs(dz)) < self.tol:
                 break
         position = np.column_stack((rays.x, rays.y, rays.z))
-        return np.linalg.norm(intersections - position, axis=1)
+        step = intersections - position
+        distance = np.linalg.norm(step, axis=1)
+        # the norm loses the sign: an intersection behind the ray is not a
+        # forward intersection (the ray would be moved to a point off the
+        # surface)
+        behind = np.sum(step * ray_directions, axis=1) < -self.tol
+        distance[behind] = np.nan
+        return distance
 
     def _intersection_sphere(self, rays):
         """
